@@ -41,11 +41,20 @@ type ProgGen struct {
 }
 
 func (g *ProgGen) freeBlockName() string {
-	for _, n := range []string{"b0", "b1", "b2", "b3", "b4", "b5"} {
+	// A nested block always has a higher number than every block around it, in every
+	// template: nesting b1 in b5 here and b5 in b1 in an ancestor would re-enter
+	// itself through parent() (unbounded recursion, outside every claim).
+	min := -1
+	for _, o := range g.open {
+		if len(o) == 2 && o[0] == 'b' && int(o[1]-'0') > min {
+			min = int(o[1] - '0')
+		}
+	}
+	for i, n := range []string{"b0", "b1", "b2", "b3", "b4", "b5"} {
 		if g.used == nil {
 			g.used = map[string]bool{}
 		}
-		if !g.used[n] && g.R.Intn(2) == 0 {
+		if i > min && !g.used[n] && g.R.Intn(2) == 0 {
 			return n
 		}
 	}
